@@ -190,7 +190,7 @@ Proof.
   destruct ((128 <=? 128 + q2) && (128 + q2 <? 192)) eqn:F8; [|lia]. cbn [negb].
   destruct ((128 <=? 128 + q3) && (128 + q3 <? 192)) eqn:F9; [|lia]. cbn [negb].
   destruct ((128 <=? 128 + r) && (128 + r <? 192)) eqn:F10; [|lia]. cbn [negb].
-  destruct (65536 <=? ((q1 * 64 + q2) * 64 + q3) * 64 + r) eqn:F11; [|lia].
+  destruct ((65536 <=? ((q1 * 64 + q2) * 64 + q3) * 64 + r) && (((q1 * 64 + q2) * 64 + q3) * 64 + r <=? 1114111)) eqn:F11; [|lia].
   f_equal. lia.
 Qed.
 
